@@ -84,8 +84,11 @@ PROPS = {
                   S('ortho', ops=['start', 'pe:1', 'pe:2', 'pe:3', 'eq:1', 'xq', 'xs'], submits=2, guards=1, qbound=2),
                   S('hier3', ops=['start', 'pe:1', 'pe:2', 'pe:4', 'eq:2', 'xq'], submits=1, guards=1, qbound=2),
                   S('hier2', ops=['start', 'pe:1', 'pe:2', 'pe:3', 'pe:4'], submits=1, guards=1, qbound=2, submit_in_nt=True),
-                  S('ortho', ops=['start', 'pe:1', 'pe:2', 'pe:3', 'pe:4'], submits=1, guards=1, qbound=2, submit_in_nt=True)],
-        rule='every reachable configuration x every event x up to N nested submissions (process_event / enqueue_event, local Fsm or root) '
+                  S('ortho', ops=['start', 'pe:1', 'pe:2', 'pe:3', 'pe:4'], submits=1, guards=1, qbound=2, submit_in_nt=True),
+                  # three nested submissions in one history
+                  S('flat', ops=['start', 'pe:1', 'pe:2', 'pe:4', 'eq:3', 'xq'], submits=3, guards=1, qbound=3),
+                  S('hier2', ops=['start', 'pe:1', 'pe:2'], submits=3, guards=0, qbound=3)],
+        rule='every reachable configuration x every event x up to N nested submissions (N = 1 quick, 1-3 thorough; process_event / enqueue_event, local Fsm or root) '
              'placed at any guard/exit/action/entry/exception_caught/no_transition position, during event processing and during start(), interleaved with '
              'driver-level enqueue_event / execute_queued_events / execute_single_queued_event; non-trivial when a nested submission happened',
     ),
